@@ -350,11 +350,11 @@ def h_tree(B, tree, kind, cplx, metric=False):
         _defined(B, n_side, [flat_of(plain), flat_of(jdx)])
 
 
-def _defined(B, n_side, results):
+def _defined(B, n_side, results, label=None):
     """the code under test must be defined wherever the documented function is: every division / root / logarithm it
     performed (definedness side conditions recorded by the engine after the reference was evaluated) has to be implied
     by the documented validity range.  Replay: the float results must be finite."""
-    label = "value and Jacobian are defined (finite) on the whole documented range"
+    label = label or "value and Jacobian are defined (finite) on the whole documented range"
     if B.mode != "sym":
         ok = all(bool(np.all(np.isfinite(np.asarray(r, dtype=complex)))) for r in results)
         B.is_true(label, ok)
